@@ -4,6 +4,7 @@
 //! A side file FILE.stats.json carries the measured counts that go into the evidence.
 mod build;
 mod codes;
+mod fibex;
 mod gen;
 mod proj;
 mod reader;
@@ -78,6 +79,7 @@ fn main() {
                 "build" => build::record(mode, seed, n, &mut out),
                 "reader" => reader::record(mode, seed, n, &mut out),
                 "stats" => stats::record(mode, seed, n, &mut out),
+                "fibex" => fibex::record(mode, seed, n, &mut out, &out_path),
                 "codes" => codes::record(mode, seed, n, &mut out, arg(&args, "--shard").map(|s| s.parse().unwrap()).unwrap_or(0), arg(&args, "--of").map(|s| s.parse().unwrap()).unwrap_or(1)),
                 _ => { eprintln!("unknown suite {}", suite); std::process::exit(2) }
             }
@@ -96,10 +98,12 @@ fn main() {
                 "build" => build::replay(mode, &cases, &mut out),
                 "reader" => reader::replay(mode, &cases, &mut out),
                 "stats" => stats::replay(mode, &cases, &mut out),
+                "fibex" => fibex::replay(mode, &cases, &mut out, &out_path),
                 _ => { eprintln!("unknown suite {}", suite); std::process::exit(2) }
             }
             out.finish(&out_path, json!({"cases": cases.len()}));
         }
+        Some("fibex-child") => fibex::child_main(&args[2]),
         Some("sweep") => {
             // dltv sweep --per-low K --threads T --seed S : the reserved type-info bits (C14)
             let per_low: u32 = arg(&args, "--per-low").map(|s| s.parse().unwrap()).unwrap_or(64);
@@ -115,6 +119,7 @@ fn main() {
                 "build" => build::rerun(&ev),
                 "reader" => reader::rerun(&ev),
                 "stats" => stats::rerun(&ev),
+                "fibex" => fibex::rerun(&ev, &out_path),
                 "codes" => codes::rerun(&ev),
                 _ => { eprintln!("unknown suite {}", suite); std::process::exit(2) }
             };
